@@ -10,7 +10,7 @@ import io
 from typing import List
 
 from vf.core import Job
-from vf.xh import Violation, realize, reject_unless
+from vf.xh import Violation, concrete, realize, reject_unless
 
 PROPERTY_ID = "C19"
 FUNCTIONS = ["ak.cli_tools.ArgParser.__init__", "ak.cli_tools.ArgParser._init_multicmd_parser", "ak.cli_tools.ArgParser.add_argument",
@@ -135,7 +135,8 @@ def h_graph(e10: bool, e20: bool, e21: bool, e30: bool, e31: bool, e32: bool, e4
     edges = [[realize(flat[(j, i)]) for i in range(j)] for j in range(n)]
     spaces = realize(spaces)
     reject_unless(spaces == shard.get("spaces", False))
-    _run(n, edges, internal, spaces)
+    with concrete():
+        _run(n, edges, internal, spaces)
 
 
 def jobs(tier: str) -> List[Job]:
